@@ -160,6 +160,17 @@ TABLE: dict[str, list[tuple]] = {
     # ---- types of ALL arriving paths, with multiplicities
     # ---- a path arrives at a potential merge node
     "LogicBlockHolder.handle_path_merge": [
+        ("the stuck counter counts consecutive visits that leave the "
+         "current path's merge node unchanged", "store", "Add",
+         "P:self.merge_counter", ("1",),
+         [_UNDECIDED, _HAS_PATH,
+          ("cmp", "P:potential_merge_node", "Eq",
+           "P:self.merge_nodes[USub(1)]", "1")], [], ""),
+        ("and restarts when the merge node changes", "store", "",
+         "P:self.merge_counter", ("0",),
+         [_UNDECIDED, _HAS_PATH,
+          ("cmp", "P:potential_merge_node", "Eq",
+           "P:self.merge_nodes[USub(1)]", "0")], [], ""),
         ("once the block has decided to merge, every further non-kill path "
          "merges without being validated again (with one path fewer the "
          "validation would fail)", "ret", "", "", ("True",),
@@ -202,6 +213,15 @@ TABLE: dict[str, list[tuple]] = {
          [("cmp", "P:event_node.event_type", "Is", "None", "0")], [], ""),
     ],
     "handle_logic_node_cases": [
+        ("an EVENT node opens the block of its (single) gate, an operator "
+         "node opens its own block", "bind", "LogicBlockHolder#2", "",
+         ("P:previous_node_class.outgoing_logic[0]",),
+         [("cmp", "P:previous_node_class.operator", "Is", "None", "1")], [],
+         ""),
+        ("... (operator node)", "bind", "LogicBlockHolder#2", "",
+         ("P:previous_node_class",),
+         [("cmp", "P:previous_node_class.operator", "Is", "None", "0")], [],
+         ""),
         ("a logic node opens a block: an operator pair of the node's own "
          "operator type, remembered with the logic node on the block stack",
          "call", "append", "P:logic_list",
@@ -278,6 +298,15 @@ TABLE: dict[str, list[tuple]] = {
     ],
     # ---- is the node the walk arrived at a merge node of the open block?
     "check_is_merge_node_for_logic_block": [
+        ("on the lonely-merge path (the current path is the only one that "
+         "continues) every node except the lonely merge itself closes the "
+         "path", "ret", "", "", ("True",),
+         [("cmp", "P:logic_block_holder.lonely_merge_index", "Is", "None",
+           "0"),
+          ("cmp", "(len(P:logic_block_holder.paths) Sub 1)", "Eq",
+           "P:logic_block_holder.lonely_merge_index", "1"),
+          ("cmp", "P:logic_block_holder.logic_node.lonely_merge", "Eq",
+           "P:node", "0")], [], ""),
         ("a block that has decided to merge merges at once for a non-kill "
          "path", "ret", "", "", ("True",),
          [_NO_LONELY, ("truth", "P:logic_block_holder.will_merge", "1"),
